@@ -112,6 +112,9 @@ def run(R):
                 R.counterexample('variants', 'variant-fails-to-compile', case, 'all five variants compile or none', errs)
                 continue
             if errs:
+                # the catalogue holds valid descriptions only: rejected in every variant is not "equal behaviour", it is a
+                # description the current code cannot compile at all
+                R.counterexample('variants', 'description-rejected-in-every-variant:' + sorted(set(errs.values()))[0], case, 'a grammar module', errs)
                 continue
             base = variants['unnamed'][1]
             for name, (g, outs) in variants.items():
